@@ -2,6 +2,13 @@
 FIELD_TB = ["section hypothesis field_theory (theorems hold for every field; the executable instance is Z mod p, Base/Zp.v)"]
 
 PROPS = {
+    "C09": {
+        "cmd": "c09",
+        "timeout": 900,
+        "trusted_base": ["CBOR body, intcomp-compressed sections and gnark-crypto point / key codecs are external: opaque byte strings in the model, round trip exercised differentially",
+                         "modelled and proved: container header and section slicing, calldata uvarints, coefficient table, fixed-width words, byte counts"],
+        "assumptions": ["behavioural equality of decoded objects is observed on sampled systems, keys and proofs (cross-verification), not proved"],
+    },
     "C07": {
         "cmd": "c07",
         "timeout": 600,
